@@ -486,9 +486,13 @@ class Tracer:
             return self.seq(first, lambda: eval_items(items[1:]))
 
         r = eval_items(arg_items)
-        if self.inline_local and not L and self._inl_depth < 3:
+        if not L and self._inl_depth < 3:
             g = self._local_fn(name)
-            if g is not None and self._has_events(g, 0):
+            from .ir import ref_fns
+            known = ref_fns().get(self.crate.name)
+            is_new = g is not None and known is not None and name not in known and g.kind != 'Closure'
+            # helpers that did not exist on the reference tree are always transparent; older functions only when the rule allows it
+            if g is not None and (is_new or self.inline_local) and self._has_events(g, 0):
                 inner = self._inline_fn(g)
                 # replace the opaque result of the call by the callee's own paths (its events, its Ok / Err value)
                 r = self.seq({(ex, t, 'unk') if ex == 'fall' else (ex, t, v) for (ex, t, v) in r}, lambda: inner)
